@@ -15,6 +15,8 @@ import json, traceback
 from .common import *
 from . import pitmask as pm
 from . import gen_arch as ga
+from . import c08_gen
+from .c08_gen import regenerate      # setup.sh regenerates Gen/MasksGen.v through this name
 
 
 def _adv_fill(torch, rng, p, mode):
@@ -145,7 +147,9 @@ def _net_worker(args):
 
 def run(ctx):
     torch = setup_torch()
+    gen_rejected = c08_gen.regenerate(ctx)
     built = ctx.build()
+    ctx.extra['generated_model'] = c08_gen.status(gen_rejected, built)
     Kmax = 12 if ctx.quick else 64
     ctx.rule = ('(a) every binarized pattern (K, receptive field r, comb level v) for K=1..%d, each realised by adversarial real vectors (0, -0, 2^-12, +-1/4, 1/2-+2^-10, '
                 '+-3/4, +-1, +-3, +-1e30) + the all-zero / all-open vectors + dyadic random vectors; (b) grammar architectures (1-D causal and 2-D) under PIT with every trainable '
@@ -212,6 +216,12 @@ def run(ctx):
             idx = [i for i, o in enumerate(obs) if 'exc' not in o]
             vals = ctx.coq_eval_sharded('masks', ['Plinio.Model.Masks'], '', [pm.coq_masks_expr(cases[i], True) for i in idx], shard=400)
             avals = ctx.coq_eval_sharded('alpha', ['Plinio.Model.Masks'], '', [pm.coq_alpha_expr(cases[i]) for i in idx], shard=400)
+            # the model GENERATED from the maskers' source on this run, on the same patterns
+            mexprs, aexprs = [pm.coq_masks_expr(cases[i], True) for i in idx], [pm.coq_alpha_expr(cases[i]) for i in idx]
+            gvals = ctx.coq_eval_sharded('gmasks', c08_gen.IMPORTS, '', c08_gen.gen_exprs(mexprs + aexprs), shard=400)
+            g2vals = ctx.coq_eval_sharded('galpha2', c08_gen.IMPORTS, '', c08_gen.alpha2_exprs(aexprs), shard=400)
+            mism += c08_gen.differences(mexprs + aexprs, list(vals) + list(avals), gvals) + c08_gen.differences2(aexprs, list(avals), g2vals)
+            ctx.corr += len(gvals) + len(g2vals)
             for i, v, a in zip(idx, vals, avals):
                 o = obs[i]
                 (bb, bg, tm, (k, d, gl)) = v
@@ -233,6 +243,9 @@ def run(ctx):
                         exprs.append('(run_masks true 1%%nat 1%%nat [1%%Q] [1%%Q], run_alpha %s)' % coq(fr))
                     refs.append((o, nm, L))
             nvals = ctx.coq_eval_sharded('nets', ['Plinio.Model.Masks'], '', exprs, shard=300) if exprs else []
+            gnvals = ctx.coq_eval_sharded('gnets', c08_gen.IMPORTS, '', c08_gen.gen_exprs(exprs), shard=300) if exprs else []
+            mism += c08_gen.differences(exprs, list(nvals), gnvals)
+            ctx.corr += len(gnvals)
             for (o, nm, L), v in zip(refs, nvals):
                 (bb, bg, tm, (k, d, gl), (fm, nout)) = v
                 ctx.corr += 1
@@ -250,7 +263,9 @@ def run(ctx):
     ctx.extra['model_impl_mismatches'] = len(mism)
 
     if not ctx.violations:   # a printed KNOWN-FINDING must not hide a broken proof / model / correspondence
-        if not built:
+        if c08_gen.report(ctx, gen_rejected, built):
+            pass
+        elif not built:
             ctx.violation('proof-broken', {'theorems': [o[0] for o in ctx.obligations if not o[1]], 'log': getattr(ctx, 'broken_log', '')[-3000:]}, 'Props/C08.v no longer checks', no_input=True)
         elif not model_ok:
             ctx.violation('model-eval-broken', {'notes': ctx.notes}, 'the model could not be evaluated', no_input=True)
